@@ -149,6 +149,7 @@ func DrawProfile(property, tier string, r *PRNG) *Profile {
 	case "C09":
 		p.PGenesis = Pick(r, []float64{0.05, 0.1, 0.2})
 		p.EndGenesis = true
+		p.AvoidKnown = r.Chance(0.75)
 		core("BasketCreate", "Put", "Sell", "DefineResolver", "Anchor", "Attest", "RegisterResolver", "BridgeReceive", "Mint")
 		p.PCrash, p.PTorn = 0, 0
 	case "C10":
